@@ -465,6 +465,16 @@ def drive_to_crs(mon: Monitor, rng: random.Random, n: int) -> None:
         for t in ("epsg:4326", 4326, g.crs, g.crs.proj.to_wkt()):
             call(g.to_crs, t)
         call(G.Geometry(shp, None).to_crs, "EPSG:3857")
+        # "already there" holds whatever else is asked for and whatever state the shape is in: invalid outlines (bow-tie, overlapping parts, hole outside the shell)
+        # with check_and_fix / resolution / wrapdateline come back as the very same object too
+        import shapely.geometry as sg_
+
+        for bad in (sg_.Polygon([(9.0, 19.0), (11.0, 21.0), (11.0, 19.0), (9.0, 21.0)]), sg_.MultiPolygon([sg_.box(9, 19, 10.5, 20.5), sg_.box(10, 20, 11, 21)]),
+                    sg_.Polygon([(9, 19), (11, 19), (11, 21), (9, 21)], [[(20, 30), (21, 30), (20.5, 31)]]), shp):
+            gb_ = G.Geometry(bad, rng.choice(["EPSG:4326", "epsg:4326"]))
+            kw_ = rng.choice([{"check_and_fix": True}, {"check_and_fix": True, "resolution": 0.3}, {"resolution": 0.5}, {"wrapdateline": True}, {"check_and_fix": True, "wrapdateline": True}])
+            call(gb_.to_crs, rng.choice(["EPSG:4326", 4326, "epsg:4326", gb_.crs]), **kw_)
+            mon.obs["same_crs_requests_with_options"] += 1
 
 
 LOOKALIKES = gen.LOOKALIKES
